@@ -1,7 +1,8 @@
 //! C07, aggregator route: the real `SignerRegisterer` of a running aggregator (registration round
 //! open) receives all sequences of ≤ L registrations over a small alphabet: honest registrations,
 //! a pool registering ANOTHER pool's key under its own operational certificate and KES signature,
-//! registrations announcing a wrong / missing KES evolution. The verification-key store is
+//! registrations announcing a wrong / missing KES evolution, valid registrations whose party id
+//! field names another pool (or nothing, or an unknown pool). The verification-key store is
 //! inspected after every step.
 
 use std::collections::BTreeMap;
@@ -27,6 +28,12 @@ pub enum Reg {
     NoEvolution(usize),
     /// honest registration announcing an absurd kes_evolutions value
     WrongEvolution(usize),
+    /// pool `by` sends its own, fully valid registration but writes pool `claims`' id in the
+    /// party id field of the message
+    ClaimedId { by: usize, claims: usize },
+    /// the same with an empty / unknown party id field
+    ClaimedEmpty(usize),
+    ClaimedUnknown(usize),
 }
 
 fn build(w: &World, r: &Reg) -> Option<Signer> {
@@ -36,6 +43,9 @@ fn build(w: &World, r: &Reg) -> Option<Signer> {
         Reg::Honest(i) => honest(*i),
         Reg::NoEvolution(i) => Signer { kes_evolutions: None, ..honest(*i) },
         Reg::WrongEvolution(i) => Signer { kes_evolutions: Some(mithril_common::crypto_helper::KesEvolutions(40)), ..honest(*i) },
+        Reg::ClaimedId { by, claims } => Signer { party_id: honest(*claims).party_id, ..honest(*by) },
+        Reg::ClaimedEmpty(i) => Signer { party_id: String::new(), ..honest(*i) },
+        Reg::ClaimedUnknown(i) => Signer { party_id: "pool1unknownunknownunknownunknownunknownunknownunknown00".to_string(), ..honest(*i) },
         Reg::StolenKey { by, of } => {
             let thief = &sf[*by];
             let victim = honest(*of);
@@ -134,7 +144,7 @@ pub fn run(ctx: &Ctx) -> ! {
     let mut rep = Report::new(
         "exploration",
         "aggregator route: all sequences of <= L registrations (honest, another pool's key under own certificate and KES signature, \
-         missing / wrong announced evolution) sent to the real SignerRegisterer of a running aggregator with an open registration \
+         missing / wrong announced evolution, valid registration claiming another / no / an unknown party id) sent to the real SignerRegisterer of a running aggregator with an open registration \
          round; the verification-key store is inspected after every step; non-trivial = at least one registration accepted",
     );
     if let Some(path) = &ctx.replay {
@@ -165,8 +175,26 @@ pub fn run(ctx: &Ctx) -> ! {
     }
     alpha.push(Reg::NoEvolution(0));
     alpha.push(Reg::WrongEvolution(1));
+    for by in 0..3 {
+        for claims in 0..3 {
+            if by != claims {
+                alpha.push(Reg::ClaimedId { by, claims });
+            }
+        }
+    }
+    alpha.push(Reg::ClaimedEmpty(0));
+    alpha.push(Reg::ClaimedUnknown(1));
     let len = ctx.tier.pick(2, 3);
     let jobs: Vec<Vec<Reg>> = sequences(alpha.len(), len).into_iter().filter(|s| !s.is_empty()).map(|s| s.iter().map(|i| alpha[*i]).collect()).collect();
+    {
+        // vacuity guard: a stake recorded under the wrong pool is only visible when stakes differ
+        let st: std::collections::BTreeSet<u64> = crate::world::fixture(3).signers_with_stake().iter().map(|s| s.stake).collect();
+        if st.len() != 3 {
+            eprintln!("MACHINERY: the fixture's three stakes are not pairwise distinct ({st:?})");
+            std::process::exit(2);
+        }
+        rep.extra("fixture_stakes_pairwise_distinct", json!(st));
+    }
     rep.extra("alphabet", json!(alpha.len()));
     rep.extra("max_sequence_length", json!(len));
     let results = par_map(&jobs, ctx.threads(), |_, regs| replay(&scratch, regs));
